@@ -1,7 +1,7 @@
 (* C16 — returned schedules fit the accelerator template.
    Only theorem statements closed by `exact`/1-line combinations, each followed by Print Assumptions. *)
 From Snax Require Import Base.Prelude Model.C03Schedule Model.C03Yields Model.C16Matcher Model.C16Fits
-  Proofs.C03ScheduleProofs Proofs.C03BacktrackProofs Proofs.C16MatcherProofs Proofs.C16FitsProofs.
+  Proofs.C03ScheduleProofs Proofs.C03BacktrackProofs Proofs.C16MatcherProofs Proofs.C16FitsProofs Proofs.C16ChecksProofs.
 
 (* FULL STATEMENT (refuted, finding F12):
      forall r yielded by scheduler_backtrack(T, s, 1, checks), fitsb matcher checks T r = true.
@@ -74,6 +74,30 @@ Theorem C16_rowspace_complete_partial :
   forall a, vzerob a = true -> row_in_span [] a = true.
 Proof. exact row_in_span_nil_zero. Qed.
 Print Assumptions C16_rowspace_complete_partial.
+
+(* What the requested checks decide.  Pure output stationarity: among the dims outside the template, the
+   columns that are nonzero in the output (last) operand all come before the all-zero (reduction) columns. *)
+Theorem C16_pure_output_stationary_spec :
+  forall T s, is_pure_output_stationary T s = true <->
+    exists a b, map col_nonzero (outer_cols (tndims T) (pcols (last s (mkPat [] [] [])))) = repeat true a ++ repeat false b.
+Proof. exact pure_output_stationary_spec. Qed.
+Print Assumptions C16_pure_output_stationary_spec.
+
+(* Memory flexibility (access granularity): when temporal dims exist, every (operand, element size) pair has a
+   result row with a spatial stride of exactly 1 whose temporal strides are all multiples of ceil(8/size). *)
+Theorem C16_memory_flexible_spec :
+  forall sizes T s n, c_ndims s = Some n -> (tndims T < n)%nat ->
+    (is_memory_flexible_enough sizes T s = true <->
+     forall p size, In (p, size) (combine s sizes) ->
+       exists i, (i < length (pb p))%nat /\ row_flexible (bank_ratio size) (tndims T) (pcols p) i = true).
+Proof. exact memory_flexible_spec. Qed.
+Print Assumptions C16_memory_flexible_spec.
+
+Theorem C16_row_flexible_spec :
+  forall q m cols i, row_flexible q m cols i = true <->
+    (forall c, In c (outer_cols m cols) -> nth i c 0 mod q = 0) /\ (exists c, In c (inner_cols m cols) /\ nth i c 0 = 1).
+Proof. exact row_flexible_spec. Qed.
+Print Assumptions C16_row_flexible_spec.
 
 (* non-vacuity: test_tiling_1o_1d2 -- bound 8 on the template (None,2,2) yields the (2,2,2) schedule, which
    has as many dims as the template, differs from the input and satisfies the post-condition *)
